@@ -1,9 +1,142 @@
 import Iox2.Model.ServiceLife
+import Iox2.Model.ServiceLifeConc
 import Driver.Util
+/- line protocol of the `svclife` component (harness: harness/src/svc/world.rs) -/
 namespace Driver.ServiceLifeD
-open Driver
+open Driver Iox2.ServiceLife
 
-def stepLine (s : Unit) (_t : List String) : Unit × String := (s, "unimplemented")
+def patOf (s : String) : Pat :=
+  if s = "ps" then .ps else if s = "ev" then .ev else if s = "rr" then .rr else .bb
 
-def comp : Comp := { σ := Unit, init := (), step := stepLine }
+def patName : Pat → String
+  | .ps => "ps" | .ev => "ev" | .rr => "rr" | .bb => "bb"
+
+/-- value of `key=` among the tokens -/
+def kvGet (toks : List String) (key : String) : Option String :=
+  (toks.filterMap (fun t => match t.splitOn "=" with
+    | [k, v] => if k = key then some v else none
+    | _ => none)).head?
+
+def kvAll (toks : List String) (key : String) : List String :=
+  toks.filterMap (fun t => match t.splitOn "=" with
+    | [k, v] => if k = key then some v else none
+    | _ => none)
+
+def isOptField (p : Pat) (i : Nat) : Bool := p == .ev && i ≥ 4
+
+def parseVal (p : Pat) (i : Nat) (v : String) : Nat :=
+  if isOptField p i then (if v = "-" then 0 else nat! v + 1) else nat! v
+
+def typeOfTok (t : String) : TypeDetail :=
+  if t = "u64" then ⟨0, "u64", 8, 8⟩
+  else if t = "u32" then ⟨0, "u32", 4, 4⟩
+  else if t = "su8" then ⟨1, "u8", 1, 1⟩
+  else if t = "unit" then ⟨0, "()", 0, 1⟩
+  else match ((t.drop 1).toString.splitOn "_") with
+    | [nm, sz, al] => ⟨0, nm, nat! sz, nat! al⟩
+    | [nm, sz, al, _] => ⟨1, nm, nat! sz, nat! al⟩
+    | _ => ⟨0, t, 0, 1⟩
+
+def withAlign (t : TypeDetail) (a : Option String) : TypeDetail :=
+  match a with
+  | some v => { t with align := max t.align (nat! v) }
+  | none => t
+
+def parseReq (p : Pat) (toks : List String) : Req :=
+  let fs := fieldsOf p
+  let vals := (List.range fs.length).map (fun i =>
+    match fs[i]? with
+    | some f => (kvGet toks f.key).map (parseVal p i)
+    | none => none)
+  let ty (k dflt : String) : TypeDetail := typeOfTok ((kvGet toks k).getD dflt)
+  let types := match p with
+    | .ps => [withAlign (ty "t" "u64") (kvGet toks "al"), ty "uh" "unit"]
+    | .rr => [withAlign (ty "qt" "u64") (kvGet toks "qal"), withAlign (ty "pt" "u64") (kvGet toks "pal")]
+    | .bb => [ty "kt" "u64"]
+    | .ev => []
+  let attrs := (kvAll toks "ad").filterMap (fun kv => match kv.splitOn ":" with
+    | [k, v] => some (nat! k, nat! v)
+    | _ => none)
+  { vals := vals, types := types, attrs := attrs, keys := (kvAll toks "ak").map nat!,
+    entries := ((kvGet toks "e").map nat!).getD 1 }
+
+def showType (t : TypeDetail) : String :=
+  (if t.variant = 0 then "F" else "D") ++ ":" ++ t.name ++ ":" ++ toString t.size ++ ":" ++ toString t.align
+
+def showVal (p : Pat) (i v : Nat) : String :=
+  if isOptField p i then (if v = 0 then "-" else toString (v - 1)) else toString v
+
+def showSettings (p : Pat) (c : Settings) : String :=
+  let fs := fieldsOf p
+  let vs := (List.range fs.length).map (fun i => ((fs[i]?.map (·.key)).getD "?") ++ "=" ++ showVal p i (c.vals.getD i 0))
+  let tk : List String := match p with
+    | .ps => ["t", "uh"] | .rr => ["qt", "pt"] | .bb => ["kt"] | .ev => []
+  let ts := (List.range tk.length).map (fun i => (tk.getD i "?") ++ "=" ++ showType (c.types.getD i default))
+  let ats := "a=[" ++ joinWith "+" (c.attrs.map (fun a => "k" ++ toString a.1 ++ "=v" ++ toString a.2)) ++ "]"
+  joinWith "," (vs ++ ts ++ [ats])
+
+def insertStr (x : String) : List String → List String
+  | [] => [x]
+  | y :: ys => if x ≤ y then x :: y :: ys else y :: insertStr x ys
+
+def sortStr (xs : List String) : List String := xs.foldl (fun acc x => insertStr x acc) []
+
+def wrapName : Pat → String
+  | .ps => "PublishSubscribe" | .ev => "Event" | .rr => "RequestResponse" | .bb => "Blackboard"
+
+def showOut (p : Pat) : Out → String
+  | .ok => "ok"
+  | .okCfg q c => "ok:" ++ showSettings q c
+  | .err 0 e => "err:" ++ e
+  | .err 1 e => "err:" ++ wrapName p ++ "OpenError(" ++ e ++ ")"
+  | .err _ e => "err:" ++ wrapName p ++ "CreateError(" ++ e ++ ")"
+  | .dup => "dup" | .none => "none" | .noNode => "no-node" | .noOoc => "err:no-open-or-create"
+  | .badKind => "err:bad-kind" | .panic => "PANIC"
+  | .bool b => if b then "true" else "false"
+  | .regs l => "[" ++ joinWith "," ((sortNat l).map toString) ++ "]"
+  | .cfg q c => showSettings q c
+  | .list l =>
+    if l.isEmpty then "-" else
+    joinWith "|" (sortStr (l.map (fun (k, n, c) => "s" ++ toString k.s ++ ":" ++ patName k.p ++ ":n" ++ toString n ++ ":" ++ showSettings k.p c)))
+  | .files svc tags bb =>
+    let es := [("blackboard_data", bb), ("blackboard_mgmt", bb), ("dynamic", svc), ("service", svc), ("service_tag", tags)]
+    let v := (es.filter (fun e => e.2 ≠ 0)).map (fun e => e.1 ++ "=" ++ toString e.2)
+    if v.isEmpty then "-" else joinWith "," v
+
+def kindCode (s : String) : Nat :=
+  if s = "pub" then 0 else if s = "sub" then 1 else if s = "not" then 2 else if s = "lis" then 3
+  else if s = "cli" then 4 else if s = "srv" then 5 else if s = "rd" then 6 else if s = "wr" then 7 else 99
+
+def parse (t : List String) : Option (Op × Pat) :=
+  match t with
+  | ["node", n] => some (.node (nat! n), .ps)
+  | ["dnode", n] => some (.dnode (nat! n), .ps)
+  | "create" :: n :: s :: h :: p :: kv => some (.create (nat! n) (nat! s) (nat! h) (patOf p) (parseReq (patOf p) kv), patOf p)
+  | "open" :: n :: s :: h :: p :: kv => some (.open_ (nat! n) (nat! s) (nat! h) (patOf p) (parseReq (patOf p) kv), patOf p)
+  | "ooc" :: n :: s :: h :: p :: kv => some (.ooc (nat! n) (nat! s) (nat! h) (patOf p) (parseReq (patOf p) kv), patOf p)
+  | ["drop", h] => some (.drop (nat! h), .ps)
+  | ["port", h, pl, k] => some (.port (nat! h) (nat! pl) (kindCode k), .ps)
+  | ["dport", pl] => some (.dport (nat! pl), .ps)
+  | ["settings", h] => some (.settings (nat! h), .ps)
+  | ["nodes", h] => some (.regs (nat! h), .ps)
+  | ["exists", s, p] => some (.exists_ (nat! s) (patOf p), .ps)
+  | ["list"] => some (.list, .ps)
+  | ["ls"] => some (.ls, .ps)
+  | ["end"] => some (.end_, .ps)
+  | _ => none
+
+def stepLine (w : Option World) (t : List String) : Option World × String :=
+  match t with
+  | "new" :: _ => (some World.init, "ok")
+  | ["inv"] => (w, match w with | some w => (if invB w then "inv-ok" else "inv-VIOLATED") | none => "no-world")
+  | "conc" :: rest => (w, Iox2.ServiceLifeConc.driverLine rest)
+  | _ =>
+    match w with
+    | none => (none, "no-world")
+    | some w =>
+      match parse t with
+      | none => (some w, "bad-op")
+      | some (op, p) => let (w', out) := step w op; (some w', showOut p out)
+
+def comp : Comp := { σ := Option World, init := none, step := stepLine }
 end Driver.ServiceLifeD
